@@ -82,7 +82,7 @@ var quickSeeds = []string{
 	"ct/x509/x509_test.go:ecdsaSHA256p384CertPem",
 	"ct/x509/x509_test.go:pemCertificate",
 	"tls/handshake_test.go:clientEd25519CertificatePEM",
-	"tls/tls_test.go:ecdsaCertPEM",
+	"tls/testdata/example-cert.pem",
 	"x509/revocation/ocsp/ocsp_test.go:responderCertHex",
 	"data/test/certificates/le.go:PEMLEX3SignedByDSTRootCAX3",
 }
@@ -126,21 +126,24 @@ func SaveSeeds(path string, seeds []xgen.Seed) error {
 const (
 	PairLimit       = 420
 	QuickBytesLimit = 520
+	ByteWindow      = 160 // offsets per byte-level unit
 )
 
 // Config selects the stream.
 type Config struct {
-	Quick      bool
-	ModelDepth int // deviations of the field model
-	Shards     int // shards of the model levels <= 2
+	ModelDepth int  // deviations of the field model (2 or 3)
+	Shards     int  // shards of the model levels <= 2
+	AllSeeds   bool // every certificate seed (else: the quick seed list)
+	AllBytes   bool // byte-level menu for every selected seed (else: only seeds <= QuickBytesLimit)
+	Pairs      bool // TLVPairs menu for seeds <= PairLimit
 }
 
-// DefaultConfig is the stream of a tier.
+// DefaultConfig is the stream of a tier as C02 uses it.
 func DefaultConfig(quick bool) Config {
 	if quick {
-		return Config{Quick: true, ModelDepth: 2, Shards: 96}
+		return Config{ModelDepth: 2, Shards: 96}
 	}
-	return Config{Quick: false, ModelDepth: 3, Shards: 96}
+	return Config{ModelDepth: 3, Shards: 96, AllSeeds: true, AllBytes: true, Pairs: true}
 }
 
 // level3 enumerates the assignments with exactly three non-default fields whose
@@ -201,7 +204,8 @@ func Level3Count() int64 {
 
 func inQuickList(name string) bool {
 	if strings.HasPrefix(name, "minted:") {
-		return name != "minted:ca:p521"
+		// P-521 makes every signature check ~2 ms: the P-521 CA and the leaf it signed are thorough-tier seeds
+		return !strings.HasSuffix(name, ":p521")
 	}
 	for _, want := range quickSeeds {
 		if strings.Contains(name, want) {
@@ -213,10 +217,11 @@ func inQuickList(name string) bool {
 
 // Units builds the unit list.
 //
-//	quick:    model levels <= 2; for the quick seed list (11 minted certificates + quickSeeds) the TLV menu,
-//	          and the byte-level menu of those of them that are <= QuickBytesLimit bytes.
-//	thorough: model levels <= 3 (level 3 marked Light); every certificate seed: TLV menu, byte-level menu
-//	          (Light unless the seed is on the quick list), pair menu (Light) when <= PairLimit bytes.
+//	C02 quick:    model levels <= 2; for the quick seed list (10 minted certificates + quickSeeds) the TLV menu,
+//	              and the byte-level menu of those of them that are <= QuickBytesLimit bytes.
+//	C02 thorough: model levels <= 3 (level 3 marked Light); every certificate seed: TLV menu, byte-level menu
+//	              (Light unless the seed is on the quick list), pair menu (Light) when <= PairLimit bytes.
+//	C06 (cheap oracle) takes every seed with both menus already in its quick tier.
 func Units(cfg Config, all []xgen.Seed) []Unit {
 	var units []Unit
 	def := xgen.Encode(xgen.Default())
@@ -243,15 +248,30 @@ func Units(cfg Config, all []xgen.Seed) []Unit {
 	for _, s := range sel {
 		s := s
 		q := inQuickList(s.Name)
-		if cfg.Quick && !q {
+		if !cfg.AllSeeds && !q {
 			continue
 		}
-		units = append(units, Unit{Name: "seed/" + s.Name + "/tlv", Kind: "seed-tlv", Base: s.Data, Seed: s.Name, Gen: xgen.Concat(one("seed", s.Data), xgen.TLVSingles(s.Data))})
-		if !cfg.Quick || len(s.Data) <= QuickBytesLimit {
-			units = append(units, Unit{Name: "seed/" + s.Name + "/bytes", Kind: "seed-bytes", Base: s.Data, Seed: s.Name, Light: !q, Gen: xgen.Concat(xgen.ByteSubs(s.Data), xgen.Truncations(s.Data))})
+		// long menus are cut into several units (load balancing only: the union is the complete menu)
+		K := 1 + len(s.Data)/300
+		tlv := xgen.Concat(one("seed", s.Data), xgen.TLVSingles(s.Data))
+		for k := 0; k < K; k++ {
+			units = append(units, Unit{Name: fmt.Sprintf("seed/%s/tlv/%d-of-%d", s.Name, k, K), Kind: "seed-tlv", Base: s.Data, Seed: s.Name, Gen: tlv.Shard(k, K)})
 		}
-		if !cfg.Quick && len(s.Data) <= PairLimit {
-			units = append(units, Unit{Name: "seed/" + s.Name + "/pairs", Kind: "seed-pairs", Base: s.Data, Seed: s.Name, Light: true, Gen: xgen.TLVPairs(s.Data)})
+		if cfg.AllBytes || len(s.Data) <= QuickBytesLimit {
+			for lo := 0; lo < len(s.Data); lo += ByteWindow {
+				hi := lo + ByteWindow
+				if hi > len(s.Data) {
+					hi = len(s.Data)
+				}
+				units = append(units, Unit{Name: fmt.Sprintf("seed/%s/bytes/%d-%d", s.Name, lo, hi), Kind: "seed-bytes", Base: s.Data, Seed: s.Name, Light: !q,
+					Gen: xgen.Concat(xgen.ByteSubsWindow(s.Data, lo, hi), xgen.TruncationsWindow(s.Data, lo, hi))})
+			}
+		}
+		if cfg.Pairs && len(s.Data) <= PairLimit {
+			pairs := xgen.TLVPairs(s.Data)
+			for k := 0; k < 4; k++ {
+				units = append(units, Unit{Name: fmt.Sprintf("seed/%s/pairs/%d-of-4", s.Name, k), Kind: "seed-pairs", Base: s.Data, Seed: s.Name, Light: true, Gen: pairs.Shard(k, 4)})
+			}
 		}
 	}
 	return units
@@ -260,11 +280,13 @@ func Units(cfg Config, all []xgen.Seed) []Unit {
 // Describe is the human-readable rule of the stream (for ev.Rule).
 func Describe(cfg Config, units []Unit) string {
 	n := map[string]int{}
-	light := 0
+	seen := map[string]bool{}
 	for _, u := range units {
-		n[u.Kind]++
-		if u.Light {
-			light++
+		if u.Kind == "model" || u.Kind == "model3" {
+			n[u.Kind]++
+		} else if !seen[u.Kind+"|"+u.Seed] {
+			seen[u.Kind+"|"+u.Seed] = true
+			n[u.Kind]++ // seeds, not units
 		}
 	}
 	s := fmt.Sprintf("input stream = %d units: (a) the certificate field model (%d fields, default = self-issued Ed25519 v3 certificate) with <= 2 non-default fields = %d encodings in %d shards",
@@ -272,12 +294,18 @@ func Describe(cfg Config, units []Unit) string {
 	if n["model3"] > 0 {
 		s += fmt.Sprintf(" and with exactly 3 non-default fields = %d encodings in %d units", Level3Count(), n["model3"])
 	}
-	if cfg.Quick {
-		s += fmt.Sprintf("; (b) for each of %d certificate seeds (11 harness-minted CA/leaf certificates + a fixed list of repository fixtures, one per key kind / extension family) the seed itself and every (TLV node x %d operators) single mutation with ancestor lengths fixed up; "+
-			"(c) for the %d of them <= %d bytes every single-byte substitution from {00,01,7f,80,ff,b^01,b^80} at every offset and every truncation", n["seed-tlv"], xgen.TLVMenuSize, n["seed-bytes"], QuickBytesLimit)
+	which := "10 harness-minted CA/leaf certificates + a fixed list of repository fixtures, one per key kind / extension family"
+	if cfg.AllSeeds {
+		which = "every certificate fixture found under the repository + 12 harness-minted CA/leaf certificates"
+	}
+	s += fmt.Sprintf("; (b) for each of %d certificate seeds (%s) the seed itself and every (TLV node x %d operators) single mutation with ancestor lengths fixed up; ", n["seed-tlv"], which, xgen.TLVMenuSize)
+	if cfg.AllBytes {
+		s += "(c) for each of them every single-byte substitution from {00,01,7f,80,ff,b^01,b^80} at every offset and every truncation"
 	} else {
-		s += fmt.Sprintf("; (b) for each of %d certificate seeds (every certificate fixture found under the repository + 12 harness-minted ones) the seed itself, every (TLV node x %d operators) single mutation with ancestor lengths fixed up, "+
-			"every single-byte substitution from {00,01,7f,80,ff,b^01,b^80} at every offset and every truncation; (c) every pair of core-menu mutations on siblings / parent+child (TLVPairs) for the %d seeds <= %d bytes", n["seed-tlv"], xgen.TLVMenuSize, n["seed-pairs"], PairLimit)
+		s += fmt.Sprintf("(c) for the %d of them <= %d bytes every single-byte substitution from {00,01,7f,80,ff,b^01,b^80} at every offset and every truncation", n["seed-bytes"], QuickBytesLimit)
+	}
+	if n["seed-pairs"] > 0 {
+		s += fmt.Sprintf("; (d) every pair of core-menu mutations on siblings / parent+child (TLVPairs) for the %d seeds <= %d bytes", n["seed-pairs"], PairLimit)
 	}
 	return s + ". Only the elements that x509.ParseCertificate accepts are subjects of the property; the rest is counted per reject class"
 }
